@@ -36,7 +36,7 @@ REGISTRY["C08"] = dict(
         "Structural clauses: (a) all 82 entries of UNIT_CONVERSION_TABLE, extracted statically from the initialiser, equal the CSS ratios and the table is "
         "reciprocal/transitive/closed; (b) Unit::kind, the table's row groups, comparable()'s decision structure (summarised per CFG path and evaluated over all 34x33 unit pairs), "
         "KNOWN_COMPATIBILITIES and From<String>/Display agree; (c) every Number::convert / conversion_factor().unwrap() site is guarded on every path by comparable()/wrappers on the same pair; "
-        "(d) conversion direction (from = own unit, to = the other operand's / result's unit), the unit-selection ladder of the four add/sub implementations, and the dimensional direction of the two unit-cancellation sites in multiply_units (value divided by conversion_factor(denominator, numerator)); (e) visit_number rejects complex units and no other function formats a number's unit into a string value without excluding compound units (5 functions do: known findings); (f) in every comparable()-guarded arm a number is built only on paths that passed comparable(), found equal units, or a unitless side. "
+        "(d) conversion direction (from = own unit, to = the other operand's / result's unit), the unit-selection ladder of the four add/sub implementations, and the dimensional direction of the two unit-cancellation sites in multiply_units (value divided by conversion_factor(denominator, numerator)); (e) visit_number rejects complex units and no other function formats a number's unit into a string value without excluding compound units (5 functions do: known findings); (f) in every comparable()-guarded arm a number is built only on paths that passed comparable(), found equal units, or a unitless side; (g) the two unconverted magnitudes are compared or combined only where the units were found equal or one side is unitless. "
         "Not decided: arithmetic results for sampled magnitudes, which units multiply_units cancels (only the direction of the factor)."
     ),
     explanation=(
@@ -51,9 +51,9 @@ REGISTRY["C01"] = dict(
     level="other",
     technique="static analysis: error-kind typestate over the resolved call graph; predicate-sensitive guard dominance; lexer-progress abstract interpretation of parser loops; reachability of explicit panic macros",
     claim=(
-        "Five structural clauses, each a necessary condition of totality, decided for all sites of the current tree: (a) only Raw errors can reach SassError::raw(); "
+        "Six structural clauses, each a necessary condition of totality, decided for all sites of the current tree: (a) only Raw errors can reach SassError::raw(); "
         "(b) every unit conversion is guarded on every path; (c) each of the 84 loops of the parsers provably consumes input on every cycle (67), is driven by a finite std iterator (7) or is one of 10 hand-reviewed exceptions, and no loop has a forced cycle at end of input; "
-        "(d) every todo!/unimplemented!/assert! site is unreachable, guarded, or in the reviewed list; (e) the panic-capable operations inside error.rs (building, classifying and rendering an error) are exactly the four reviewed ones. NOT decided: the ~230 unwrap/unreachable!/index sites resting on value invariants, "
+        "(d) every todo!/unimplemented!/assert! site is unreachable, guarded, or in the reviewed list; (e) the panic-capable operations inside error.rs (building, classifying and rendering an error) are exactly the four reviewed ones; (f) in the indented-syntax comment parsers `current_indentation - parent_indentation` cannot underflow (saturating, or every read_indentation() is preceded by peek_indentation() >= parent). NOT decided: the ~230 unwrap/unreachable!/index sites resting on value invariants, "
         "stack exhaustion on deep nesting, termination of evaluation/serialisation."
     ),
     explanation=(
@@ -135,7 +135,7 @@ REGISTRY["C05"] = dict(
     claim=(
         "Encoding and visibility clauses: (a) every write to Serializer.buffer / the local quoting buffer is an ASCII constant, a whole str, fmt output or the in-order copy of a source byte, no cutting operation is ever applied, "
         "and in the two byte-copy loops a byte >= 0x80 is always copied unchanged with nothing interleaved (safety of the two from_utf8_unchecked); (b) the unsafe inventory is exactly the three reviewed blocks; "
-        "(c) BOM/@charset are inserted exactly under (non-ASCII, allows_charset[, compressed]) and nothing else reads allows_charset; (d) invisible selectors/statements are filtered before any write; (e) in quoted strings the escaped byte set is exactly the C0 controls except tab (decision blocks evaluated for all 256 byte values) and a hex escape is followed by a space before a hex digit, space or tab. "
+        "(c) BOM/@charset are inserted exactly under (non-ASCII, allows_charset[, compressed]) and nothing else reads allows_charset; (d) invisible selectors/statements are filtered before any write; (e) in quoted strings the escaped byte set is exactly the C0 controls except tab (decision blocks evaluated for all 256 byte values) and a hex escape is followed by a space before a hex digit, space or tab; (f) attribute values are written unquoted only under is_ident(), which reaches its scanning loop only for a first character that is a non-digit name-start character. "
         "NOT decided: balanced braces/strings/comments, absence of Sass-only syntax in values, re-parse idempotence."
     ),
     explanation="Clauses C05-a..d of DESIGN.md §3 on MIR/HIR facts of the current tree. NOT decided: well-formedness of the emitted text as CSS, fixed-point behaviour.",
@@ -233,7 +233,7 @@ REGISTRY["C03"] = dict(
     claim=(
         "Structural discipline clauses: (a,b) every discovered temporary override of scopes, flags, env, content, configuration and import path (34 instances frozen from the pinned tree) is restored on every non-Err exit; "
         "(c) only the lookup/insert functions write Scopes.last_variable_index, every scope pop / variable removal resets it, and every insertion into a scope map first refreshes the cache to that (name, index), resets it, or targets index 0; (d) BinaryOp::precedence follows the Sass order, and/or evaluate the right operand only under the "
-        "right truthiness, if() evaluates exactly one branch; (e) arguments are evaluated before the environment switch, verify precedes binding, positional binding precedes defaults precedes the body; (f) scope maps, which closures share by Arc (new_closure clones the Arcs), are only inserted into: destructive BTreeMap operations on Identifier-keyed value/mixin/function maps are an exact reviewed inventory. "
+        "right truthiness, if() evaluates exactly one branch; (e) arguments are evaluated before the environment switch, verify precedes binding, positional binding precedes defaults precedes the body; (f) scope maps, which closures share by Arc (new_closure clones the Arcs), are only inserted into: destructive BTreeMap operations on Identifier-keyed value/mixin/function maps are an exact reviewed inventory; (g) @each zips its variables with the element's values chained with an unbounded null iterator (type-level: Chain<IntoIter<Value>, Cycle/Repeat<..>>). "
         "NOT decided: that the values computed are the specified ones; !global/!default semantics; closure capture; @content scope."
     ),
     explanation="Clauses C03-a..e of DESIGN.md §3 on MIR facts of the current tree. NOT decided: evaluation results.",
@@ -256,8 +256,8 @@ REGISTRY["C10"] = dict(
     level="other",
     technique="static analysis: must-reach rule (a field must have an error-producing reader / a consulted map must have a writer), visibility-filter dominance shared with C05-d, no-effect-operation-on-temporary detector",
     claim=(
-        "Five structural clauses only: (a) Extension/ExtendRule.is_optional must be read by a branch whose mandatory edge can produce an Err (`extending a missing target is an error unless !optional`); "
-        "(b) placeholder selectors are filtered before anything is written (C05-d); (c) the media contexts consulted while extending are recorded by some writer, and `get_mut(k).replace(v)` on temporaries are reported (undecided); (d) register_selector records the rule under every simple selector and always descends into the inner list of a selector pseudo, independent of what the index already holds; (e) every min_specificity/max_specificity accessor reads and sums only its own bound, simple selectors carry the CSS weights, and pseudo-element vs pseudo-class weight is decided by `is_class`. "
+        "Six structural clauses only: (a) Extension/ExtendRule.is_optional must be read by a branch whose mandatory edge can produce an Err (`extending a missing target is an error unless !optional`); "
+        "(b) placeholder selectors are filtered before anything is written (C05-d); (c) the media contexts consulted while extending are recorded by some writer, and `get_mut(k).replace(v)` on temporaries are reported (undecided); (d) register_selector records the rule under every simple selector and always descends into the inner list of a selector pseudo, independent of what the index already holds; (e) every min_specificity/max_specificity accessor reads and sums only its own bound, simple selectors carry the CSS weights, and pseudo-element vs pseudo-class weight is decided by `is_class`; (f) merge_final_combinators pushes a popped component back only onto the list it was popped from. "
         "NOT decided: everything that makes @extend interesting - that rewritten selectors match the right elements, second-law specificity, trimming, media scoping semantics."
     ),
     explanation="Clauses of DESIGN.md §3 C10 on MIR facts of the current tree. Both (a) and the media-context part of (c) are violated on the pinned tree (missing features) and listed as known findings with reproducing inputs. NOT decided: matching semantics of extended selectors.",
